@@ -9,6 +9,7 @@ import (
 	"io"
 	"os"
 	"os/exec"
+	"path/filepath"
 	"runtime/debug"
 	"strings"
 	"sync"
@@ -33,6 +34,7 @@ type GenReq struct {
 	Args       []string `json:"args"`
 	Repeat     int      `json:"repeat"`    // fresh Mocker instances to run (>=1)
 	FailAfter  int      `json:"failAfter"` // <0: plain buffer; else the writer fails once more than this many bytes were offered
+	Install    string   `json:"install"`   // regeneration: write the first output under this name into SrcDir, generate again, remove it
 }
 
 type GenResp struct {
@@ -131,6 +133,28 @@ func serve(req *GenReq) (resp *GenResp) {
 		}
 	}
 	resp.Distinct = len(seen)
+	if req.Install != "" && resp.Err == "" {
+		path := filepath.Join(req.SrcDir, req.Install)
+		if err := os.WriteFile(path, []byte(resp.Out), 0o644); err != nil {
+			resp.Err = "verif: cannot install output: " + err.Error()
+			return
+		}
+		defer os.Remove(path)
+		m, err := moq.New(moq.Config{SrcDir: req.SrcDir, PkgName: req.PkgName, Formatter: req.Fmt,
+			StubImpl: req.Stub, SkipEnsure: req.SkipEnsure, WithResets: req.WithResets})
+		if err != nil {
+			resp.Alt, resp.Distinct = "ERROR(load): "+err.Error(), 2
+			return
+		}
+		var b bytes.Buffer
+		if err := m.Mock(&b, req.Args...); err != nil {
+			resp.Alt, resp.Distinct = "ERROR(mock): "+err.Error(), 2
+			return
+		}
+		if b.String() != resp.Out {
+			resp.Alt, resp.Distinct = b.String(), 2
+		}
+	}
 	return
 }
 
